@@ -527,7 +527,11 @@ def run_func(case, out, env):
     # points outside the mathematical domain of the map (zero block of a quotient, rank-deficient frame) are not fed in
     kap0 = spec.kappa(to_np64(make_theta(pts, c)), c)
     out.count('outside_math_domain', int((~np.isfinite(kap0)).sum()))
-    pts = pts[np.isfinite(kap0)]
+    # beyond the stated conditioning bound (tolerance would exceed 1e-2; e.g. choleskyL frames whose Gram matrix is numerically
+    # singular, where numpy's cholesky raises): counted, not fed in (a batched call would fail as a whole)
+    ill = np.isfinite(kap0) & (C * EPS[c['prec']] * kap0 > 1e-2)
+    out.count('skipped_ill_conditioned', int(ill.sum()))
+    pts = pts[np.isfinite(kap0) & ~ill]
     if len(pts) % 2:
         pts = pts[:-1]
     K = len(pts)
@@ -781,10 +785,11 @@ def run_module(case, out, env):
     pts = theta_lattice(nper, bound, env.rng('C01m', c['cls'], nper), G, cap)
     if fref is not None:
         k0 = SPECS[fref[0]].kappa(pts, fref[1])
-        pts = pts[np.isfinite(k0)]
+        pts = pts[np.isfinite(k0) & (C * eps * k0 <= 1e-2)]  # in the domain and within the stated conditioning bound
     elif c['cls'] == 'QuantumChannel':
         sc_ = {'method': c['method'], 'dim': mod.choi_rank * c['dim_out'], 'rank': c['dim'], 'field': 'complex', 'phase': c['phase']}
-        pts = pts[np.isfinite(SPECS['stiefel'].kappa(pts, sc_))]
+        k0 = SPECS['stiefel'].kappa(pts, sc_)
+        pts = pts[np.isfinite(k0) & (C * eps * k0 <= 1e-2)]
     elif c['cls'] == 'SeparableDensityMatrix':
         nc_ = mod.num_cha
         dA_, dB_ = c['dim'], c['dimB']
